@@ -8,6 +8,9 @@ import VhostModel.Drv.Route
 import VhostModel.Drv.Kern
 import VhostModel.Drv.Mem
 import VhostModel.Drv.Vq
+import VhostModel.Drv.Proxy
+import VhostModel.Drv.BeSrv
+import VhostModel.Drv.Gpu
 /-! Model driver: one scenario per input line, one prediction per output line. -/
 
 def dispatch (line : String) : String :=
@@ -23,6 +26,9 @@ def dispatch (line : String) : String :=
   | "kern" :: _ => Drv.Kern.run toks
   | "mem" :: _ => Drv.Mem.run toks
   | "vq" :: _ => Drv.Vq.run toks
+  | "proxy" :: _ => Drv.Proxy.run toks
+  | "besrv" :: _ => Drv.BeSrv.run toks
+  | "gpu" :: _ => Drv.Gpu.run toks
   | _ => "bad-family"
 
 partial def loop (h : IO.FS.Stream) (out : IO.FS.Stream) : IO Unit := do
